@@ -83,6 +83,15 @@ func runExpireVotes(ctx *action.Context, tx action.RawTx) (bool, action.Response
 		return false, result
 	}
 
+	//Only a proposal whose voting period is over can expire (the condition under which
+	//BeginBlock queues the internal expiry); anything else is not for the sender to decide
+	if proposal.Status != governance.ProposalStatusVoting || proposal.VotingDeadline >= ctx.Header.Height {
+		result := action.Response{
+			Events: action.GetEvent(expireVotes.Tags(), "expire_votes_failed"),
+			Log:    governance.ErrStatusNotVoting.Marshal(),
+		}
+		return false, result
+	}
 	//Update outcome and status of proposal
 	proposal.Status = governance.ProposalStatusCompleted
 	proposal.Outcome = governance.ProposalOutcomeInsufficientVotes
